@@ -645,6 +645,9 @@ func checkC20Restore(p *Prog, r *Report, ru *Rule) {
 		for _, b := range fn.Blocks {
 			for _, i := range b.Instrs {
 				if _, isPanic := i.(*ssa.Panic); isPanic {
+					if ssa.IsUnreachableMarker(i) {
+						continue
+					}
 					if "yield-invalid" == b.Comment || strings.HasPrefix(b.Comment, "rangefunc.") || strings.HasPrefix(b.Comment, "select.next") {
 						continue
 					}
@@ -774,7 +777,7 @@ func checkC20Restore(p *Prog, r *Report, ru *Rule) {
 		if !ok || 3 != len(ret.Results) || !isNilConst(retVal(ret, 2)) {
 			return
 		}
-		if retVal(ret, 1) == cleanupLocal {
+		if resolveCell(retVal(ret, 1)) == cleanupLocal {
 			ru.OK(fnName(onew)+":returns-cleanup", posOf(ret), "the caller receives the cleanup function")
 		} else {
 			ru.Bad(fnName(onew)+":returns-cleanup", posOf(ret), "on success New does not return its cleanup function")
@@ -788,7 +791,9 @@ func checkC20Restore(p *Prog, r *Report, ru *Rule) {
 		ret, ok := i.(*ssa.Return)
 		return ok && 3 == len(ret.Results) && !isNilConst(retVal(ret, 2))
 	}}.run()
-	if nil != miss {
+	if nil != miss && flagGuardedCleanup(onew, cleanupLocal) {
+		ru.OK(fnName(onew)+":error-paths-clean-up", posOf(open), "a deferred function runs the cleanup unless a flag was set, and the flag is set only on the way to the successful return")
+	} else if nil != miss {
 		ru.Bad(fnName(onew)+":error-paths-clean-up", posOf(miss), "an error return of opshell.New after the TTY was opened does not call the cleanup: the TTY stays open (and possibly raw)")
 	} else {
 		ru.OK(fnName(onew)+":error-paths-clean-up", posOf(open), "every error return after the TTY was opened runs the cleanup")
@@ -906,4 +911,114 @@ func infallibleWrite(call *ssa.Call) bool {
 		return false
 	}
 	return typeIs(c.Value.Type(), "hash", "Hash") || typeIs(c.Value.Type(), "hash", "Hash32") || typeIs(c.Value.Type(), "hash", "Hash64")
+}
+
+// flagGuardedCleanup recognises
+//
+//	done := false
+//	defer func() { if !done { cleanup() } }()
+//	... error returns ...
+//	done = true
+//	return ..., nil
+//
+// in fn: the deferred function literal is registered right after the cleanup
+// exists (it dominates every later return), it calls cleanup on the edge where
+// the flag is false, every error return observes only false stores of the
+// flag and every successful return only true ones.
+func flagGuardedCleanup(fn *ssa.Function, cleanup ssa.Value) bool {
+	isCleanupCall := func(i ssa.Instruction) bool {
+		c := callCommon(i)
+		return nil != c && resolveCell(c.Value) == cleanup
+	}
+	ok := false
+	eachInstr(fn, func(i ssa.Instruction) {
+		d, isDefer := i.(*ssa.Defer)
+		if !isDefer {
+			return
+		}
+		lit, _ := closureOf(d.Common().Value)
+		if nil == lit || lit.Parent() != fn {
+			return
+		}
+		/* In the literal: a test of a captured boolean cell whose false
+		edge leads to the cleanup call, which is reachable no other way. */
+		var flag *ssa.Alloc
+		for _, b := range lit.Blocks {
+			ifi := blockIf(b)
+			if nil == ifi {
+				continue
+			}
+			dc := decodeCond(ifi.Cond)
+			if nil != dc.Y {
+				continue
+			}
+			ld, isLd := dc.X.(*ssa.UnOp)
+			if !isLd || token.MUL != ld.Op {
+				continue
+			}
+			cell, isCell := resolveFree(ld.X).(*ssa.Alloc)
+			if !isCell || cell.Parent() != fn {
+				continue
+			}
+			falseSucc := 1
+			if !dc.Eq {
+				falseSucc = 0
+			}
+			/* Cleanup on every path from the false edge; none from the true edge. */
+			missing := reachQ{From: Loc{b.Succs[falseSucc], -1}, Target: isReturn, Block: isCleanupCall}.run()
+			extra := reachQ{From: Loc{b.Succs[1-falseSucc], -1}, Target: isCleanupCall}.run()
+			if nil == missing && nil == extra {
+				flag = cell
+			}
+		}
+		if nil == flag {
+			return
+		}
+		/* Returns. */
+		good := true
+		nerr, nok := 0, 0
+		eachInstr(fn, func(j ssa.Instruction) {
+			ret, isRet := j.(*ssa.Return)
+			if !isRet || (nil != fn.Recover && j.Block() == fn.Recover) {
+				return
+			}
+			if !canReach(locOf(cleanup.(ssa.Instruction)), j) {
+				return /* before the cleanup exists */
+			}
+			if !instrDominates(d, j) {
+				good = false
+				return
+			}
+			errV := retVal(ret, len(ret.Results)-1)
+			/* Which stores of the flag can this return observe? */
+			sts := reachingStoresAt(j, flag)
+			for _, leaf := range phiLeaves(errV) {
+				isErr := !isNilConst(leaf.V)
+				for _, st := range sts {
+					b, isC := constBool(st.Val)
+					if !isC {
+						good = false
+						continue
+					}
+					/* Stores seen on the way to this very leaf. */
+					if nil != leaf.From && !canReach(locOf(st), leaf.From.Instrs[len(leaf.From.Instrs)-1]) && st.Block() != leaf.From {
+						continue
+					}
+					if isErr && b {
+						good = false
+					}
+				}
+				if isErr {
+					nerr++
+				} else {
+					nok++
+				}
+			}
+		})
+		if good && nerr > 0 {
+			ok = true
+		}
+		_ = nok
+	})
+	return ok
 }
